@@ -399,6 +399,9 @@ class Contract(object):
             rz = self.raises(Ctx(interp, old_st.fork(), fr), Args(args))
             if fs.status == 'return':
                 n_paths['return'] += 1
+                # reachability probe (vacuity guard): this goal must NOT be provable -- if it is for every returning path,
+                # the hypotheses collected on the way (callee contracts, loop assumptions, preconditions) are contradictory
+                fs.oblige('%s/cover.path_reachable' % sn, False, kind='cover')
                 try:
                     ens = self.ensures(fc, Args(args), fs.retval, Ctx(interp, old_st, fr))
                 except Raised as e:
